@@ -604,6 +604,7 @@ func TestVerif_C43(t *testing.T) {
 	r := vh.Start(t, "C43")
 	defer r.Finish()
 	verifC43RealFallback(t, r)
+	verifC43InPackDuplicate(t, r)
 	r.Rule("every non-empty blob subset of three synthetic pack layouts (gap-boundary, tiny, 32 MiB-chunk-boundary) x every assignment of range-request answers {ok,error,short,MAC damage of blob j,wrong sealed content for blob j} within the stated deviation bound x fallback {nil,all,none,even} x callback abort position, through the real streamPack; non-trivial = more than one range request, or a non-ok answer, or a callback abort")
 	key := verifC43Key(t)
 	dec, err := zstd.NewReader(nil)
@@ -707,6 +708,98 @@ func TestVerif_C43(t *testing.T) {
 					}
 				}
 			})
+		}
+	}
+}
+
+// verifC43InPackDuplicate (part 3): a real pack that holds the same blob at two offsets (what SaveBlob with
+// storeDuplicate produces inside one upload session), both copies indexed.  LoadBlobsFromPack for every
+// non-empty subset of the pack's distinct blobs: each requested handle is handed to the callback exactly once,
+// with the right bytes, nothing else.
+func verifC43InPackDuplicate(t *testing.T, r *vh.Run) {
+	ctx := context.Background()
+	for _, comp := range []CompressionMode{CompressionOff, CompressionMax} {
+		ck := fmt.Sprintf("in-pack-duplicate|compression=%v", comp)
+		if !r.Case(ck) {
+			continue
+		}
+		repo, _ := TestRepositoryWithBackend(t, TestBackend(t), 2, Options{Compression: comp})
+		mk := func(seed byte, n int) []byte {
+			b := make([]byte, n)
+			for i := range b {
+				b[i] = byte('k' + (i/41+int(seed))%9)
+			}
+			return b
+		}
+		A, B, C := mk(1, 1700), mk(2, 900), mk(3, 2600)
+		if err := repo.WithBlobUploader(ctx, func(ctx context.Context, up restic.BlobSaverWithAsync) error {
+			for _, c := range []struct {
+				b   []byte
+				dup bool
+			}{{A, false}, {B, false}, {A, true}, {C, false}, {B, true}} {
+				if _, _, _, err := up.SaveBlob(ctx, restic.DataBlob, c.b, restic.ID{}, c.dup); err != nil {
+					return err
+				}
+			}
+			return nil
+		}); err != nil {
+			t.Fatal(err)
+		}
+		content := map[restic.BlobHandle][]byte{}
+		var hs []restic.BlobHandle
+		for _, b := range [][]byte{A, B, C} {
+			h := restic.BlobHandle{Type: restic.DataBlob, ID: restic.Hash(b)}
+			content[h] = b
+			hs = append(hs, h)
+		}
+		pbs := repo.LookupBlob(hs[0])
+		if len(pbs) != 2 || pbs[0].PackID() != pbs[1].PackID() {
+			t.Fatalf("fixture: blob A has %d index entries, want 2 in one pack", len(pbs))
+		}
+		packID := pbs[0].PackID()
+		for mask := 1; mask < 1<<len(hs); mask++ {
+			var req []restic.BlobHandle
+			for i, h := range hs {
+				if mask&(1<<i) != 0 {
+					req = append(req, h)
+				}
+			}
+			calls := map[restic.BlobHandle]int{}
+			var bad []string
+			err := repo.LoadBlobsFromPack(ctx, packID, req, func(h restic.BlobHandle, buf []byte, err error) error {
+				calls[h]++
+				if err != nil {
+					bad = append(bad, fmt.Sprintf("callback for %v carries an error on an intact pack: %v", h, err))
+				} else if want, ok := content[h]; !ok || !bytes.Equal(buf, want) {
+					bad = append(bad, fmt.Sprintf("callback for %v carries wrong bytes", h))
+				}
+				return nil
+			})
+			r.Eval(1)
+			r.Trace(1)
+			r.NontrivialByConstruction(1)
+			if err != nil {
+				bad = append(bad, fmt.Sprintf("LoadBlobsFromPack failed on an intact pack: %v", err))
+			}
+			for _, h := range req {
+				if calls[h] != 1 {
+					bad = append(bad, fmt.Sprintf("requested blob %v: callback called %d times, want exactly once", h, calls[h]))
+				}
+			}
+			for h, n := range calls {
+				found := false
+				for _, q := range req {
+					found = found || q == h
+				}
+				if !found {
+					bad = append(bad, fmt.Sprintf("blob %v was not requested but delivered %d time(s)", h, n))
+				}
+			}
+			if len(bad) > 0 {
+				r.Violation(ck, fmt.Sprintf("C43|in-pack-duplicate|compression=%v|request=%03b", comp, mask), strings.Join(bad, "\n"), nil)
+			} else {
+				r.Outcome("in-pack-duplicate ok")
+			}
 		}
 	}
 }
